@@ -112,6 +112,26 @@ CHECKS = {
             "raw-bytes decode.",
             "trusts the region model; each buffer name recognised at most once",
             "reference-model + partition monitor on recorded slices"),
+    "C18": ("exploration", "4.C18",
+            "A sys.meta_path recorder logs every import request for parser packages, fixture parser modules log every call "
+            "with its arguments, wrappers log m2c00's routing; each decode is checked for the right module, the exact "
+            "subtype/version/payload or reference code/words, containment of raising/None-returning parsers (differential "
+            "decode against a twin PEL with a well-behaved parser) and for no import/call at all with plugins disabled "
+            "(also in fresh subprocesses reporting sys.modules).",
+            "fixture modules stand for arbitrary third-party parsers; trusts importlib's meta_path protocol",
+            "import-request and call-log monitors + differential decode"),
+    "C19": ("exploration", "4.C19",
+            "Histories of decode operations run in children forked from a pristine zygote process; after every operation "
+            "the result is compared with a fresh reference (a child that decoded only that PEL), scanned for unique tokens "
+            "of other PELs, and the four import caches are checked against per-module fresh-import verdicts; violating "
+            "histories are shrunk by delta debugging; -a/-a -r arrays are compared with per-file fresh documents.",
+            "os.fork gives history-free references; fixture plugins are pure functions of their arguments",
+            "differential history monitor with fork-fresh references + cache invariant at quiescent points"),
+    "C20": ("exploration", "4.C20",
+            "Wrappers over ParserData.get_signature/get_reg_data and the oe500 plugin entry points compare every call with "
+            "a byte-position model under absent/full/partial chip data, through direct calls, 0xE500 user-data sections and "
+            "BD..E5.. primary SRCs.",
+            "trusts sig_ref/regdump_ref and the fixture chip data layout", "reference-model monitor on the real functions"),
 }
 
 TECH_DEFAULT = "runtime monitoring"
